@@ -69,7 +69,7 @@ class C07(Prop):
             if r < 0.1:
                 scripts["%d:1" % opid] = {"replies": [{"k": "none"}]}
             elif r < 0.25 and family == "v3":
-                scripts["%d:1" % opid] = {"replies": [{"k": "custom", "pdu": "report", "varbinds": [["1.3.6.1.6.3.15.1.1.%d.0" % rng.randint(1, 6), ["counter32", rng.randrange(2**32)]]], "rewrite": rng.choice([{}, {"noauth": 1}])}]}
+                scripts["%d:1" % opid] = {"replies": [{"k": "custom", "pdu": "report", "varbinds": [["1.3.6.1.6.3.15.1.1.%d.0" % rng.randint(1, 6), ["counter32", rng.randrange(2**32)]]], "rewrite": dict(rng.choice([{}, {"noauth": 1}]), **rng.choice([{}, {"request-id": "zero"}, {"request-id": "xor1"}, {"request-id": rng.randrange(2**31)}]))}]}
             else:
                 scripts["%d:1" % opid] = {"replies": [{"k": "custom", "pdu": "response", "varbinds": reply_varbinds(rng, asked), "error_status": rng.choice([0, 0, 0, 2, 5])}]}
         return {"flavour": flavour, "agent": agent, "sessions": [sess], "ops": ops, "scripts": scripts, "latency_ns": gen.latency(rng, 1000, 2_000_000)}
